@@ -6,6 +6,7 @@ import (
 	"errors"
 	"fmt"
 	"io"
+	"os"
 	"testing"
 	"testing/iotest"
 
@@ -26,7 +27,8 @@ type CaseC18 struct {
 	Content  ref.Hex `json:"content"`   // optional explicit contents overriding the seed pattern (first bytes)
 	FailAt   int     `json:"fail_at"`   // index of the packet write that fails, -1 = none
 	FailN    int     `json:"fail_n"`    // count returned by the failing packet write
-	Ctor     int     `json:"ctor"`      // 0 IOWriter, 1 IOWriteCloser, 2 IOWriter(PacketWriterFunc), 3 IOWriteCloser(NopCloser(func))
+	Ctor     int     `json:"ctor"`      // 0 IOWriter, 1 IOWriteCloser, 2 IOWriter(PacketWriterFunc), 3 IOWriteCloser(NopCloser(func)), 4/5 as 0/1 with a packet writer that also has its own Write method
+	ErrKind  int     `json:"err_kind"`  // error the failing reader returns: 0 plain, 1 timeout-like (Timeout() true), 2 os.ErrDeadlineExceeded, 3 io.ErrNoProgress
 	Reader   int     `json:"reader"`    // 0 bytes.Reader 1 bufio 2 one-byte 3 half 4 data-with-EOF 5 chunks
 	Chunks   []int   `json:"chunks"`    // for reader kind 5
 	ReadFail int     `json:"read_fail"` // reader fails with its own error after this many bytes, -1 = never
@@ -47,7 +49,8 @@ func genC18(t *rapid.T) CaseC18 {
 		c.FailAt = rapid.IntRange(0, c.Packets-1).Draw(t, "fail-at")
 		c.FailN = rapid.SampledFrom([]int{0, 0, 188, 10}).Draw(t, "fail-n")
 	}
-	c.Ctor = rapid.IntRange(0, 3).Draw(t, "ctor")
+	c.Ctor = rapid.IntRange(0, 5).Draw(t, "ctor")
+	c.ErrKind = rapid.IntRange(0, 3).Draw(t, "err-kind")
 	c.Reader = rapid.IntRange(0, 5).Draw(t, "reader")
 	if c.Reader == 5 {
 		c.Chunks = rapid.SliceOfN(rapid.IntRange(1, 400), 1, 6).Draw(t, "chunks")
@@ -90,6 +93,33 @@ func (s *c18Sink) WritePacket(p *packet.Packet) (int, error) {
 }
 func (s *c18Sink) Close() error { s.closed++; return nil }
 
+// c18SinkW is a packet writer whose type also has an io.Writer-style Write of
+// its own (e.g. it embeds a buffer): the adapter must still go through WritePacket.
+type c18SinkW struct {
+	*c18Sink
+	ownWrites int
+}
+
+func (s *c18SinkW) Write(p []byte) (int, error) { s.ownWrites++; return len(p), nil }
+
+type c18TimeoutErr struct{}
+
+func (c18TimeoutErr) Error() string   { return "harness: i/o timeout" }
+func (c18TimeoutErr) Timeout() bool   { return true }
+func (c18TimeoutErr) Temporary() bool { return true }
+
+func c18ReaderErr(kind int) error {
+	switch kind {
+	case 1:
+		return c18TimeoutErr{}
+	case 2:
+		return os.ErrDeadlineExceeded
+	case 3:
+		return io.ErrNoProgress
+	}
+	return errC18Reader
+}
+
 func c18Data(c CaseC18) []byte {
 	n := c.Packets*188 + c.Extra
 	d := make([]byte, n)
@@ -108,8 +138,12 @@ func c18Writer(c CaseC18, sink *c18Sink) packet.Writer {
 		return packet.IOWriteCloser(sink)
 	case 2:
 		return packet.IOWriter(packet.PacketWriterFunc(sink.WritePacket))
-	default:
+	case 3:
 		return packet.IOWriteCloser(packet.NopCloser(packet.PacketWriterFunc(sink.WritePacket)))
+	case 4:
+		return packet.IOWriter(&c18SinkW{c18Sink: sink})
+	default:
+		return packet.IOWriteCloser(&c18SinkW{c18Sink: sink})
 	}
 }
 
@@ -198,7 +232,7 @@ func checkC18(c CaseC18, x *hx.Ctx) *hx.Failure {
 	}
 	avail := total
 	if c.ReadFail >= 0 {
-		r = &fragReader{data: clone(data), chunks: c.Chunks, failAfter: c.ReadFail, ownErr: errC18Reader}
+		r = &fragReader{data: clone(data), chunks: c.Chunks, failAfter: c.ReadFail, ownErr: c18ReaderErr(c.ErrKind)}
 		if c.Reader == 2 {
 			r = iotest.OneByteReader(r)
 		}
@@ -229,7 +263,7 @@ func checkC18(c CaseC18, x *hx.Ctx) *hx.Failure {
 		whole := data[:c.Packets*188]
 		var n2 int64
 		var err2 error
-		if c.Ctor >= 2 {
+		if c.Ctor == 2 || c.Ctor == 3 {
 			// function-backed adapters share the sink through the closure
 			n2, err2 = rf.ReadFrom(&fragReader{data: clone(whole), chunks: c.Chunks, failAfter: -1})
 			sink2.got = sink.got[before:]
@@ -252,7 +286,7 @@ func checkC18(c CaseC18, x *hx.Ctx) *hx.Failure {
 			return hx.Failf("readfrom-writer-error", "packet write %d failed but ReadFrom returned error %v", c.FailAt, rerr)
 		}
 	case c.ReadFail >= 0:
-		if rerr != errC18Reader {
+		if rerr != c18ReaderErr(c.ErrKind) {
 			return hx.Failf("readfrom-reader-error", "reader failed after %d bytes but ReadFrom returned error %v", c.ReadFail, rerr)
 		}
 		if rn != int64(188*complete) {
